@@ -1,9 +1,18 @@
-From WR Require Import Lib.Bits Mpq.Crypt Mpq.Archive Proofs.HashTable_proofs Proofs.FileLayout_proofs Props.C01.
+From Coq Require Import NArith List Bool Arith.
+Import ListNotations.
+From WR Require Import Lib.Bits Mpq.Crypt Mpq.Archive Proofs.HashTable_proofs Proofs.FileLayout_proofs Proofs.Sectors_proofs Proofs.Sectors_example Props.C01.
 Open Scope N_scope.
-Definition pin_1 : forall t k L name blk, Inv t k L -> In (item_of name blk) L -> exists idx, ht_find t name = Some (idx, blk) := C01_ht_find_inserted.
-Definition pin_2 : forall t k L name,
+
+
+Definition pin_1 : forall k, Inv (repeat hempty (N.to_nat (2 ^ k))) k [] := C01_ht_empty_inv.
+Definition pin_2 : forall t k L name blk t',
+    Inv t k L -> ~ key_in L (hash_string name ht_name_a) (hash_string name ht_name_b) -> blk < he_deleted ->
+    ht_insert t name blk = InsOk t' -> Inv t' k (item_of name blk :: L) := C01_ht_insert_inv.
+Definition pin_3 : forall t k L name blk, Inv t k L -> In (item_of name blk) L -> exists idx, ht_find t name = Some (idx, blk) := C01_ht_find_inserted.
+Definition pin_4 : forall t k L name,
     Inv t k L -> ~ key_in L (hash_string name ht_name_a) (hash_string name ht_name_b) -> ht_find t name = None := C01_ht_find_absent.
-Definition pin_3 : forall (compress : N -> list N -> option (list N)) (decompress : N -> list N -> N -> option (list N))
+Definition pin_5 : forall t n1 n2, map norm n1 = map norm n2 -> ht_find t n1 = ht_find t n2 := C01_ht_find_spelling.
+Definition pin_6 : forall (compress : N -> list N -> option (list N)) (decompress : N -> list N -> N -> option (list N))
          (name : list N) (a : archive) (ssz : N) (crc : bool) (f : file_spec) (pos : N) (bytes : list N) (csize flags : N),
     f_name f = name -> f_enc f < 3 -> wf_bytes (f_data f) ->
     lenN (f_data f) <= ssz -> lenN (f_data f) < M32 ->
@@ -11,3 +20,30 @@ Definition pin_3 : forall (compress : N -> list N -> option (list N)) (decompres
     write_file compress ssz crc f pos = Some (bytes, csize, flags) ->
     carries name a pos bytes csize (lenN (f_data f)) flags ssz ->
     read_file decompress a name = ROk (f_data f) := C01_single_unit_roundtrip.
+Definition pin_7 : forall (compress : N -> list N -> option (list N)) (decompress : N -> list N -> N -> option (list N))
+         (name : list N) (a : archive) (ssz : N) (crc : bool) (f : file_spec) (pos : N) (bytes : list N) (csize flags : N),
+    f_name f = name -> f_enc f < 3 -> wf_bytes (f_data f) ->
+    0 < ssz -> ssz < lenN (f_data f) -> lenN (f_data f) < M32 ->
+    write_file compress ssz crc f pos = Some (bytes, csize, flags) ->
+    has_flag flags fl_compress = false ->
+    carries name a pos bytes csize (lenN (f_data f)) flags ssz ->
+    read_file decompress a name = ROk (f_data f) := C01_stored_sectors_roundtrip.
+Definition pin_8 : forall (compress : N -> list N -> option (list N)) (decompress : N -> list N -> N -> option (list N))
+         (name : list N) (a : archive) (ssz : N) (crc : bool) (f : file_spec) (pos : N) (bytes : list N) (csize flags : N),
+    f_name f = name -> f_enc f < 3 -> wf_bytes (f_data f) ->
+    0 < ssz -> ssz < lenN (f_data f) -> lenN (f_data f) < M32 ->
+    Forall (unit_contract compress decompress (f_comp f)) (sectors ssz (f_data f)) ->
+    write_file compress ssz crc f pos = Some (bytes, csize, flags) ->
+    has_flag flags fl_compress = true ->
+    lenN bytes < M32 ->
+    carries name a pos bytes csize (lenN (f_data f)) flags ssz ->
+    read_file decompress a name = ROk (f_data f) := C01_compressed_sectors_roundtrip.
+Definition pin_9 : forall (compress : N -> list N -> option (list N)) (decompress : N -> list N -> N -> option (list N))
+         (name : list N) (a : archive) (ssz : N) (crc : bool) (f : file_spec) (pos : N) (bytes : list N) (csize flags : N),
+    f_name f = name -> f_enc f < 3 -> wf_bytes (f_data f) ->
+    0 < ssz -> lenN (f_data f) < M32 -> lenN bytes < M32 ->
+    (if lenN (f_data f) <=? ssz then unit_contract compress decompress (f_comp f) (f_data f)
+     else Forall (unit_contract compress decompress (f_comp f)) (sectors ssz (f_data f))) ->
+    write_file compress ssz crc f pos = Some (bytes, csize, flags) ->
+    carries name a pos bytes csize (lenN (f_data f)) flags ssz ->
+    read_file decompress a name = ROk (f_data f) := C01_file_roundtrip.
